@@ -1244,6 +1244,17 @@ func class(input, obs string) string {
 		if strings.Contains(input, ",U") || strings.Contains(input, "+U") {
 			c += ":chained"
 		}
+		switch {
+		case strings.Contains(input, "P~") || strings.Contains(input, "Pg~"):
+			c += ":preprocessor-reads-response"
+			if strings.Contains(input, "bjl0") || strings.Contains(input, "bhl0") || strings.Contains(input, "list,0") {
+				c += ":empty-list"
+			}
+		case strings.Contains(input, "F~") || strings.Contains(input, "Fg~"):
+			c += ":template-func-on-response"
+		case strings.Contains(input, "T~"):
+			c += ":template-indexes-response"
+		}
 		if m["tgt"] == "h2raw" {
 			c += ":h2-frames"
 		}
@@ -1260,6 +1271,14 @@ func class(input, obs string) string {
 				c += ":dka"
 			}
 		}
+	}
+	if m["k"] == "idx" {
+		lv := strings.Split(m["lv"], ";")
+		c += fmt.Sprintf(":depth%d", len(lv))
+		if f := strings.Split(lv[len(lv)-1], "|"); len(f) == 3 && strings.HasPrefix(f[2], "L") && strings.HasSuffix(f[2], "0") && len(f[2]) == 3 {
+			c += ":empty-list"
+		}
+		c += ":" + strings.SplitN(obs, ":", 2)[0]
 	}
 	if strings.Contains(obs, "res=panic") || strings.HasPrefix(obs, "PANIC") {
 		c += ":PANIC"
@@ -1298,6 +1317,10 @@ func main() {
 			"of the FRAMES (CONTINUATION, trailers, interim blocks, PING / WINDOW_UPDATE floods, unknown frames, RST_STREAM / GOAWAY with any code, broken HPACK, " +
 			"missing or malformed :status, oversized frames and header blocks, PUSH_PROMISE, content-length mismatches, plain-text HTTP/1.1 on an h2 connection); plus direct differential of the modifier / assertion / " +
 			"extractor functions on random values and arguments and EXHAUSTIVELY on every substr(start[, end]) in a window around every short value length; " +
+			"RESPONSE-DERIVED VARIABLES read inside Shoot: lists of every length 0..n stored by var/jsonpath / var/xpath (and repeated fields of gRPC response messages) " +
+			"indexed by the next steps' preprocessors with every index text ([next], [rand], [last], [N], [-N], garbage) for one and several instances, response-chosen " +
+			"strings handed to randString / randInt (int64 extremes, lengths beyond make()), rendered into URIs, headers and bodies by the text and html templaters; " +
+			"mp.GetMapValue differentially on variable trees of every slice type, length and up to three levels; " +
 			"non-trivial = at least one response processed",
 	})
 }
